@@ -20,7 +20,7 @@ RootPre(v, t) ==
      IN W(v1, SegOf("GS", <<"FA", RStrip(g[2]), RStrip(g[1]), DATE, TIME, GCN, g[4], VRIIC>>))
 GsPre(v, gs) == IF gs.vriic = "#NONE" THEN [W([v EXCEPT !.stn = @ + 1], SegOf("ST", <<"999", Pad4(v.stn + 1), VRIIC>>)) EXCEPT !.crashed = TRUE]
                 ELSE W(W([v EXCEPT !.stn = @ + 1], SegOf("ST", <<"999", Pad4(v.stn + 1), VRIIC>>)), SegOf("AK1", <<gs.fic, gs.id, gs.vriic>>))
-StPre(v, st) == IF st.vriic = "#NONE" THEN [v EXCEPT !.crashed = TRUE]        \* EngineError: err_st.vriic was not set (ST03 absent)
+StPre(v, st) == IF st.vriic = "#NONE" THEN W(v, SegOf("AK2", <<st.tsid, Strip(st.id)>>))        \* AK203 only when ST03 was received
                 ELSE W(v, SegOf("AK2", <<st.tsid, Strip(st.id), st.vriic>>))
 RECURSIVE WAll(_, _, _)
 WAll(v, lines, i) == IF i > Len(lines) THEN v ELSE WAll(W(v, lines[i]), lines, i + 1)
@@ -47,7 +47,8 @@ VisitIsas(v, ii, i) == IF i > Len(ii) \/ v.crashed THEN v ELSE VisitIsas(VisitGr
 RootPost(v, t) == IF v.crashed THEN v ELSE
                   LET v1 == W(v, SegOf("GE", <<"", GCN>>))
                       v2 == IF t.nodes[t.isa].x = "1" THEN W(v1, SegOf("TA1", <<t.nodes[t.isa].id, DATE, TIME, "#ACK", "#NOTE">>)) ELSE v1
-                  IN W(v2, SegOf("IEA", <<>>))
+                  IN IF t.nodes[t.isa].x = "1" /\ IsaEleBad(PIsa(t, t.isa)) THEN [v1 EXCEPT !.crashed = TRUE] ELSE
+                     W(v2, SegOf("IEA", <<>>))
 Visit999(t) == RootPost(VisitIsas(RootPre(V0, t), Nested(t), 1), t)
 
 (* the writer: envelope records go through Writer!WWrite, the content of non-trailers is carried along in order *)
